@@ -176,6 +176,20 @@ def idents_part(ctx):
     ips += [str(ipaddress.IPv4Address(rng.getrandbits(32))) for _ in range(n)]
     ips += [str(ipaddress.IPv6Address(rng.getrandbits(128))) for _ in range(n)]
     ips += [ipaddress.IPv6Address(rng.getrandbits(128) & rng.getrandbits(128) & rng.getrandbits(128)).exploded for _ in range(n // 3)]
+    # structured IPv6 identifiers (a uniform draw never lands in them): addresses that embed an IPv4 address —
+    # IPv4-mapped ::ffff:0:0/96, IPv4-compatible ::/96, NAT64 64:ff9b::/96, 6to4 2002::/16 — written with a dotted tail
+    # and in plain hex groups.  They are IPv6 identifiers: RFC 8738 / RFC 3596 give them the 32-nibble ip6.arpa name.
+    embedded = ["::ffff:192.0.2.1", "::ffff:c000:201", "::192.0.2.1", "64:ff9b::192.0.2.33", "2002:c000:201::1",
+                "::ffff:0.0.0.0", "::ffff:255.255.255.255", "0:0:0:0:0:ffff:a00:1", "::ffff:0:192.0.2.1"]
+    for _ in range(n // 5):
+        v4 = ipaddress.IPv4Address(rng.getrandbits(32))
+        hexed = "%x:%x" % (int(v4) >> 16, int(v4) & 0xffff)
+        embedded.append(rng.choice(["::ffff:%s" % v4, "::ffff:" + hexed, "::%s" % v4, "64:ff9b::%s" % v4, "64:ff9b::" + hexed,
+                                    "2002:%s::%x" % (hexed, rng.getrandbits(16)), "0:0:0:0:0:ffff:%s" % v4]))
+    n_embedded = len(embedded)
+    ips += embedded
+    ctx.count("ident:ipv6-embedding-ipv4", n_embedded)
+    ctx.count("ident:ipv6-ipv4-mapped", sum(1 for s in embedded if ipaddress.IPv6Address(s).ipv4_mapped is not None))
     impl = vlib.probe([{"op": "ident", "type": "ip", "value": s, "challenge": rng.choice(["http-01", "tls-alpn-01"])} for s in ips])
     mod = vlib.model([{"op": "reverse_name", "octets_hex": ipaddress.ip_address(s).packed.hex()} for s in ips])
     for s, i, m in zip(ips, impl, mod):
